@@ -135,7 +135,14 @@ fn build_node(ctx: &Arc<Ctx>, t: &Tree, next: &mut usize) -> BoxNode {
         Tree::Leaf { reads, writes } => {
             let sid = *next;
             *next += 1;
-            BoxNode(Box::new(DynSys::new(ctx, sid, reads, writes, 3)))
+            let mut s = DynSys::new(ctx, sid, reads, writes, 3);
+            if sid % 3 == 2 {
+                // this leaf leaves `System::setup` to the library's default
+                s.acc.default_setup = true;
+                BoxNode(Box::new(crate::sys::DynSysDefaultSetup(s)))
+            } else {
+                BoxNode(Box::new(s))
+            }
         }
         Tree::Par(k) => {
             let mut it = k.iter();
